@@ -195,6 +195,7 @@ bool SchemaValidator::checkContent (XMLElementDecl* const elemDecl
             {
                 DatatypeValidator::ValidatorType eleDefDVType = fCurrentDatatypeValidator->getType();
                 bool validateCanonical = false;
+                bool compareWithFixed = false;
                 if (eleDefDVType == DatatypeValidator::NOTATION)
                 {
                     // if notation, need to bind URI to notation first
@@ -246,15 +247,10 @@ bool SchemaValidator::checkContent (XMLElementDecl* const elemDecl
                     else
                     {
                         // this element has specified some value
-                        // if the flag is FIXED, then this value must be same as default value
+                        // if the flag is FIXED, then this value must be same as default value;
+                        // the values can only be compared once this one is known to be valid
                         if ((((SchemaElementDecl*)elemDecl)->getMiscFlags() & SchemaSymbols::XSD_FIXED) != 0)
-                        {
-                            if (fCurrentDatatypeValidator->compare(value, elemDefaultValue, fMemoryManager) != 0 )
-                            {
-                                emitError(XMLValid::FixedDifferentFromActual, elemDecl->getFullName());
-                                fErrorOccurred = true;
-                            }
-                        }
+                            compareWithFixed = true;
                     }
                 }
 
@@ -266,6 +262,12 @@ bool SchemaValidator::checkContent (XMLElementDecl* const elemDecl
                             XMLCh* canonical = (XMLCh*) fCurrentDatatypeValidator->getCanonicalRepresentation(value, fMemoryManager);
                             ArrayJanitor<XMLCh> tempCanonical(canonical, fMemoryManager);
                             fCurrentDatatypeValidator->validate(canonical, getScanner()->getValidationContext(), fMemoryManager);
+                        }
+                        if (compareWithFixed
+                            && fCurrentDatatypeValidator->compare(value, elemDefaultValue, fMemoryManager) != 0)
+                        {
+                            emitError(XMLValid::FixedDifferentFromActual, elemDecl->getFullName());
+                            fErrorOccurred = true;
                         }
                     }
                     catch (XMLException& idve)
